@@ -312,6 +312,85 @@ theorem substL_quantOK (test : Expr → Bool) (other : Expr) (ho : other.quantOK
       exact ⟨substE_quantOK test other ho e e' he' hq.1, substL_quantOK test other ho es es'' hes' hq.2⟩
 end
 
+mutual
+/-- the capture-avoiding variable replacement keeps the invariant -/
+theorem substV_quantOK (a : String) (other : Expr) (ho : other.quantOK) :
+    ∀ (e e' : Expr), substV a other e = .ok e' → e.quantOK → e'.quantOK
+  | .lit .., e', h, hq => by simp only [substV] at h; cases h; exact hq
+  | .this .., e', h, hq => by simp only [substV] at h; cases h; exact hq
+  | .var .., e', h, hq => by simp only [substV] at h; cases h; split <;> first | exact ho | exact hq
+  | .set t vs, e', h, hq => by
+      simp only [substV] at h
+      obtain ⟨vs', hvs', h⟩ := bind_ok h
+      split at h
+      · cases h; exact hq
+      · obtain ⟨vs'', hvs'', h⟩ := bind_ok h
+        cases h
+        exact castList_quantOK hvs'' (substVL_quantOK a other ho vs vs' hvs' hq)
+  | .range t lo hi ex1 ex2, e', h, hq => by
+      simp only [substV] at h
+      obtain ⟨lo', hlo', h⟩ := bind_ok h
+      obtain ⟨hi', hhi', h⟩ := bind_ok h
+      split at h
+      · cases h; exact hq
+      · obtain ⟨lo'', hlo'', h⟩ := bind_ok h
+        obtain ⟨hi'', hhi'', h⟩ := bind_ok h
+        cases h
+        exact ⟨castE_quantOK hlo'' (substV_quantOK a other ho lo lo' hlo' hq.1),
+               castE_quantOK hhi'' (substV_quantOK a other ho hi hi' hhi' hq.2)⟩
+  | .quant _ q x d b, e', h, hq => by
+      simp only [substV] at h
+      split at h
+      · cases h; exact hq
+      obtain ⟨d', hd', h⟩ := bind_ok h
+      obtain ⟨b', hb', h⟩ := bind_ok h
+      split at h
+      · cases h; exact hq
+      · exact mkQuant_quantOK h (substV_quantOK a other ho d d' hd' hq.2.1) (substV_quantOK a other ho b b' hb' hq.2.2)
+  | .un _ op u, e', h, hq => by
+      simp only [substV] at h
+      obtain ⟨u', hu', h⟩ := bind_ok h
+      split at h
+      · cases h; exact hq
+      · exact mkUn_quantOK h (substV_quantOK a other ho u u' hu' hq)
+  | .bin _ op u v, e', h, hq => by
+      simp only [substV] at h
+      obtain ⟨u', hu', h⟩ := bind_ok h
+      obtain ⟨v', hv', h⟩ := bind_ok h
+      split at h
+      · cases h; exact hq
+      · exact mkBin_quantOK h (substV_quantOK a other ho u u' hu' hq.1) (substV_quantOK a other ho v v' hv' hq.2)
+  | .call _ f as, e', h, hq => by
+      simp only [substV] at h
+      obtain ⟨as', has', h⟩ := bind_ok h
+      split at h
+      · cases h; exact hq
+      · exact mkCall_quantOK h (substVL_quantOK a other ho as as' has' hq)
+  | .field t m n, e', h, hq => by
+      simp only [substV] at h
+      obtain ⟨m', hm', h⟩ := bind_ok h
+      split at h
+      · cases h; exact hq
+      · exact mkFieldT_quantOK h (substV_quantOK a other ho m m' hm' hq)
+  | .index t u i, e', h, hq => by
+      simp only [substV] at h
+      obtain ⟨u', hu', h⟩ := bind_ok h
+      obtain ⟨i', hi', h⟩ := bind_ok h
+      split at h
+      · cases h; exact hq
+      · exact mkIndexT_quantOK h (substV_quantOK a other ho u u' hu' hq.1) (substV_quantOK a other ho i i' hi' hq.2)
+theorem substVL_quantOK (a : String) (other : Expr) (ho : other.quantOK) :
+    ∀ (es es' : ExprList), substVL a other es = .ok es' → es.quantOK → es'.quantOK
+  | .nil, es', h, _ => by simp only [substVL] at h; cases h; trivial
+  | .cons e es, es', h, hq => by
+      simp only [substVL] at h
+      obtain ⟨e', he', h⟩ := bind_ok h
+      obtain ⟨es'', hes', h⟩ := bind_ok h
+      cases h
+      exact ⟨substV_quantOK a other ho e e' he' hq.1, substVL_quantOK a other ho es es'' hes' hq.2⟩
+end
+
+
 theorem mkPred_quantOK {e : Expr} {p : Pred} (h : mkPred e = .ok p) (hq : e.quantOK) : p.quantOK := by
   unfold mkPred at h
   obtain ⟨e', he', h⟩ := bind_ok h
@@ -336,7 +415,7 @@ theorem Pred.replaceVar_quantOK {p p' : Pred} {a : String} {other : Expr} (ho : 
     obtain ⟨e', he', h⟩ := bind_ok h
     split at h
     · cases h; exact hq
-    · exact mkPred_quantOK h (substE_quantOK _ _ ho e e' he' hq)
+    · exact mkPred_quantOK h (substV_quantOK _ _ ho e e' he' hq)
   | vtrue => simp only [Pred.replaceVar] at h; cases h; trivial
   | vfalse => simp only [Pred.replaceVar] at h; cases h; trivial
 
